@@ -4,6 +4,7 @@
 
 mod c04;
 mod c05;
+mod c06;
 mod c07;
 mod c10;
 mod c11;
@@ -29,6 +30,7 @@ fn main() {
         "c05-replay" => c05::replay(rest),
         "c05-record" => c05::record(rest),
         "c05-udp" => c05::udp(rest),
+        "c06-replay" => c06::replay(rest),
         "c07-malformed" => c07::malformed(rest),
         "c07-garbage" => c07::garbage(rest),
         "c10-replay" => c10::replay(rest),
